@@ -133,8 +133,8 @@ class C06(runner.Check):
 		ops = []
 		for _ in range(r.randint(4, 14)):
 			kind = r.wchoice(["dls", "marg", "np_seed", "np_draw", "torch_seed",
-				"numba_threads", "train", "predict", "ism", "custom_ops", "fail"],
-				[14, 2, 1, 1, 1, 1, 1, 1, 1, 1, 3 if leg == "faulty" else 0])
+				"numba_threads", "train", "predict", "ism", "custom_ops", "edit_model", "fail"],
+				[14, 2, 1, 1, 1, 1, 1, 1, 1, 1, 0.7, 3 if leg == "faulty" else 0])
 			op = {"kind": kind}
 			if kind in ("dls", "marg", "fail"):
 				m = r.wchoice(["subset", "perm", "dup", "all", "single"], [3, 3, 2, 2, 2])
@@ -235,24 +235,26 @@ class C06(runner.Check):
 			args = (torch.linspace(-1, 1, n + 2, dtype=dt)[1:n + 1].reshape(n, 1),)
 		pristine = mw.build_model(mspec)
 		mw.set_plan(mw.FaultPlan(None))
-		# canonical: each example alone, one example per call, batch = n_shuffles
-		canon = {}
-		canon_refs = []
-		cond = _Conditioning()
-		try:
+		def compute_canon(pristine_model):
+			"""each example alone, one example per call, batch = n_shuffles"""
+			canon_, canon_refs_ = {}, []
+			cond_ = _Conditioning()
 			for mode in ("processed", "hypothetical", "raw"):
 				rows = []
 				for i in range(n):
 					a_i = None if args is None else tuple(a[i:i + 1] for a in args)
-					m_i = mw.clone_model(pristine)
+					m_i = mw.clone_model(pristine_model)
 					if mode == "processed":
-						cond.observe(m_i)       # private clone: observation only
+						cond_.observe(m_i)       # private clone: observation only
 					res = self._dls(m_i, X[i:i + 1], a_i, mode, world,
 						batch_size=ns, return_references=True)
 					rows.append(res[0][0])
 					if mode == "processed":
-						canon_refs.append(res[1][0])
-				canon[mode] = rows
+						canon_refs_.append(res[1][0])
+				canon_[mode] = rows
+			return canon_, canon_refs_, cond_
+		try:
+			canon, canon_refs, cond = compute_canon(pristine)
 		except Exception as e:
 			out.skipped = "canonical run raises %s" % type(e).__name__
 			out.digest = log.digest()
@@ -267,6 +269,8 @@ class C06(runner.Check):
 			out.digest = log.digest()
 			return out
 		X0 = X.clone()
+		world_refs = torch.stack(canon_refs)       # a reference tensor the caller owns
+		world_refs0 = world_refs.clone()
 		shared = mw.clone_model(pristine)
 		pX = mw.gen_onehot(world["xseed"] + 17, 4, L, dtype=dt)
 		pargs = () if args is None else (torch.tensor([[0.5], [-0.25], [1.0], [0.0]],
@@ -300,6 +304,27 @@ class C06(runner.Check):
 					saturation_mutagenesis(shared, X[:1], args=None if args is None else
 						tuple(a[:1] for a in args), start=0, end=3, device="cpu",
 						target=world["target"])
+					perturbed = True
+				elif kind == "edit_model":
+					# the user edits the architecture between two calls (a new
+					# non-linearity in the head); the canonical results are recomputed
+					# on an identically edited pristine copy
+					def edit(m_):
+						layers = list(m_.head)
+						layers.insert(len(layers) - 1, torch.nn.Tanh())
+						m_.head = torch.nn.Sequential(*layers)
+					edit(shared)
+					edit(pristine)
+					try:
+						canon, canon_refs, cond2 = compute_canon(pristine)
+					except Exception:
+						out.skipped = "canonical run raises after the edit"
+						break
+					if cond2.reason:
+						out.skipped = "ill-conditioned world: " + cond2.reason
+						break
+					world_refs = torch.stack(canon_refs)
+					world_refs0 = world_refs.clone()
 					perturbed = True
 				elif kind == "custom_ops":
 					# a caller overriding the rule of every activation type for ONE call
@@ -350,7 +375,12 @@ class C06(runner.Check):
 					refs = None
 					want_rows = None
 					if op["refs"] == "tensor":
-						refs = torch.stack([canon_refs[i] for i in idx])
+						if idx == list(range(n)):
+							refs = world_refs                     # the caller's own object
+							op_ret_refs = True
+						else:
+							refs = torch.stack([canon_refs[i] for i in idx])
+							op_ret_refs = False
 					elif op["refs"] == "tensor_tiny":
 						# references a hair away from the input: |delta_in| of the rescale
 						# rule lands in the 1e-6 .. 1e-4 range, close to its switch
@@ -412,9 +442,11 @@ class C06(runner.Check):
 										random_state=world["random_state"], warning_threshold=1e9))
 								box["res"] = yb
 							else:
+								ret_refs = op["return_references"] or (op["refs"] == "tensor"
+									and refs is world_refs)
 								run = lambda: self._dls(shared, Xs, a_s, op["mode"], world,
 									refs=refs, batch_size=bs,
-									return_references=op["return_references"],
+									return_references=ret_refs,
 									seed_type=op.get("seed_type", "int"),
 									verbose=op.get("verbose", False))
 								itf = op.get("interfere")
@@ -458,6 +490,18 @@ class C06(runner.Check):
 					got_refs = None
 					if isinstance(res, tuple):
 						res, got_refs = res
+					if got_refs is not None and refs is world_refs:
+						# the caller post-processes what was returned; its own input
+						# tensor must not change underneath it
+						chk = got_refs.clone()
+						got_refs.mul_(0.5)
+						out.bump("probe.returned_references_modified_in_place")
+						if mw._tbytes(world_refs) != mw._tbytes(world_refs0):
+							out.violate("input_modified", "%s: modifying the returned references "
+								"in place changed the caller's own reference tensor (the result "
+								"aliases the input)" % desc, key={"kind": "alias"})
+							break
+						got_refs = chk
 					log.log("dls", oi, idx, bs, op["mode"], mw._tbytes(res))
 					kept.append((oi, res, mw._tbytes(res)))
 					want_shape = (len(idx), ns, 4, L) if op["mode"] == "raw" else \
